@@ -275,6 +275,27 @@ def _judge_model(kind, case, rec, family):
             mean[j] = 100.0
     twin = sempler.NormalDistribution(mean0, cov0)
     rec.count("twin:nd")
+    # results do not depend on earlier calls: the same queries (conditioning sets in a new order included) on the used object
+    # and on the twin give identical bits
+    if p >= 3:
+        for _ in range(4):
+            perm = [int(v) for v in rng.permutation(p)]
+            ny = int(rng.integers(1, p - 1))
+            Y, Xs = perm[:ny], perm[ny:]
+            x = [float(v) for v in rng.normal(size=len(Xs))]
+            for Xo in (Xs, Xs[::-1], sorted(Xs)):
+                xo = [x[Xs.index(j)] for j in Xo]
+                try:
+                    a1, a2 = dist.conditional(Y, Xo, xo), twin.conditional(Y, Xo, xo)
+                    r1, r2 = dist.regress(Y[0], Xo), twin.regress(Y[0], Xo)
+                    m1, m2 = dist.mse(Y[0], Xo), twin.mse(Y[0], Xo)
+                except np.linalg.LinAlgError:
+                    continue
+                rec.count("history:queries-compared-with-twin")
+                if not (_same_dist(a1, a2) and np.array_equal(r1[0], r2[0]) and r1[1] == r2[1] and m1 == m2):
+                    rec.violation("C14:nd-result-depends-on-earlier-calls", family, case,
+                                  "conditional / regress / mse (Y=%s, X=%s) on a distribution with a call history differ from a fresh twin's" % (Y, Xo))
+                    break
     if not _same_dist(dist, twin) or dist.p != p:
         rec.violation("C14:nd-differs-from-fresh-twin", family, case, "after %d calls (and the caller overwriting his own data) mean / covariance differ from a fresh twin's" % steps)
     if not np.array_equal(dist.sample(5, random_state=1), twin.sample(5, random_state=1)):
@@ -293,7 +314,7 @@ def _utils_workload(U, gens, rng, rec):
     p = int(rng.integers(2, 6))
     dag = gmat.random_dag_masks(rng, p, density=rng.uniform(0.3, 0.8))
     pd = gmat.random_pdag_masks(rng, p)
-    D = gmat.to_np(dag)
+    D = gmat.to_np(dag) if rng.random() < 0.8 else gmat.to_np(dag, dtype=bool)      # 0/1 adjacency given as bool now and then
     Df = gmat.to_np(dag, dtype=float)
     W = gmat.weighted(rng, dag, "signed")
     P = gmat.to_np(pd)
@@ -322,6 +343,7 @@ def _utils_workload(U, gens, rng, rec):
         ("has_consistent_extension", (P,)), ("are_forward_neighbors", (cp, cp, i, j)), ("are_backward_neighbors", (cp, cp, i, j)),
         ("to_factorization", (D,)), ("is_supergraph", (D, D)), ("has_subgraph", ([D, Pext], [D])), ("has_supergraph", ([D], [D, Pext])),
         ("remove_edges", (D, min(1, int(D.sum())))), ("remove_edges", (W, 0)), ("add_edges", (D, min(1, p * (p - 1) // 2 - int(D.sum())))),
+        ("LGANM-ctor", (D,)), ("ANM-ctor", (D,)),
         ("add_edges", (W, 0)), ("pdag_to_cpdag", (P,)), ("dag_to_cpdag", (D,)), ("dag_to_cpdag", (W,)), ("pdag_to_dag", (P,)), ("order_edges", (D,)),
         ("order_edges", (W,)), ("rule_1", (i, j, P)), ("rule_2", (i, j, P)), ("rule_3", (i, j, P)), ("rule_4", (i, j, P)), ("maximally_orient", (P,)),
         ("maximally_orient", (cp,)), ("pdag_to_icpdag", (cp, I)), ("dag_to_icpdag", (D, I)), ("dag_to_icpdag", (W, I)), ("all_dags", (P,)),
@@ -330,8 +352,14 @@ def _utils_workload(U, gens, rng, rec):
         ("split_data", (data, (0.7, 0.2, 0.1), 7)), ("sorted_tuple", ({3, 1, 2},)), ("all_but", (0, p)), ("all_but", ([0, 1], p)),
     ]
     results = {}
+    import sempler as _s
     for (name, args) in calls:
-        fn = getattr(U, name)
+        if name == "LGANM-ctor":
+            fn = lambda M: _s.LGANM(M, (0, 1), (1, 2)).W
+        elif name == "ANM-ctor":
+            fn = lambda M: _s.ANM(M, [None] * len(M), [_s.noise.normal()] * len(M)).A
+        else:
+            fn = getattr(U, name)
         try:
             res = fn(*args)
         except (ValueError, AssertionError):
@@ -368,7 +396,16 @@ def _utils_workload(U, gens, rng, rec):
 def judge(family, case, rec):
     if family == "repo-tests":
         from ..workloads import repotests
-        repotests.run(rec, case["module"])
+        from ..monitors import invariants
+        # the repository's tests assign attributes of a model themselves (joint.mean = ...): a change made by the *caller*
+        # between two calls is not the library's doing, so the construction-time invariant is switched off here and only the
+        # per-call comparison of the model before / after each method (argmon) is judged
+        saved = invariants.State.rec
+        invariants.State.rec = None
+        try:
+            repotests.run(rec, case["module"])
+        finally:
+            invariants.State.rec = saved
         return
     import sempler
     import sempler.utils as U
